@@ -18,7 +18,10 @@ func init() {
 			"NOT covered: the key-wise merge loop itself (override/newTagItems over runtime tag lists) and the CLI flag plumbing.",
 		Assume:  []string{"go/parser returns fields in source order; field.End() of a tagged field is the end of its tag literal; token.Pos of the only file in a fresh FileSet is offset+1"},
 		Trusted: []string{"go/types", "go/ssa", "regexp/syntax"},
-		Run:     func(c *Ctx) { runC06(c, "C06") },
+		Run: func(c *Ctx) {
+			runC06(c, "C06")
+			importRules(c, "C19", runC19, "C06-ALLFILES", "every .go file of a directory/glob run is handed to the injector: the file loops leave only through their headers and ignore the per-file result (rule C19-ISOLATE)", 2, ruleIn("C19-ISOLATE"))
+		},
 	})
 	register(&PropDef{
 		ID: "C07",
@@ -27,7 +30,10 @@ func init() {
 			"NOT covered: override(override(o,i),i) = override(o,i) for all tag lists — a fixpoint property of a data-dependent loop; a merge that appends instead of overriding is not detected by this check.",
 		Assume:  []string{"as C06"},
 		Trusted: []string{"go/types", "go/ssa", "regexp/syntax"},
-		Run:     func(c *Ctx) { runC06(c, "C07") },
+		Run: func(c *Ctx) {
+			runC06(c, "C07")
+			importRules(c, "C06", func(s *Ctx) { runC06(s, "C06") }, "C07-ONEPASS", "one run injects every annotated field: areas are applied in descending offset order and the splice keeps the bytes around the field (rules C06-ORDER, C06-SPLICE, C06-SPAN) — otherwise later fields are left for a later run and the file keeps changing", 3, ruleIn("C06-ORDER", "C06-SPLICE", "C06-SPAN"))
+		},
 	})
 	register(&PropDef{
 		ID: "C19",
